@@ -290,7 +290,13 @@ func (s *Service) housekeepAttestedMap(_ context.Context,
 	epoch := s.chainTime.SlotToEpoch(duty.Slot())
 	if epoch > 1 {
 		s.attestedMu.Lock()
-		delete(s.attested, epoch-2)
+		// Remove all older epochs, not only epoch-2: an epoch without a
+		// successful attestation would otherwise leave its predecessors behind for ever.
+		for attestedEpoch := range s.attested {
+			if attestedEpoch+1 < epoch {
+				delete(s.attested, attestedEpoch)
+			}
+		}
 		s.attestedMu.Unlock()
 	}
 }
